@@ -241,7 +241,10 @@ func (m *Morass) write() {
 	}
 
 	verifStep("write.sync", 0)
-	m.setErr(tf.Sync())
+	err = tf.Sync()
+	if err != nil {
+		m.setErr(err)
+	}
 }
 
 func (m *Morass) setErr(err error) {
